@@ -44,9 +44,11 @@ def lit(hexs):
 
 
 def uop(o):
-    k = lit(o["k"])
+    k = lit(o.get("k"))
     v = lit(o.get("v"))
     t = o["op"]
+    if t == "count":
+        return "UCount"
     return {"incr": "UMutate %s mf_incr" % k, "append": "UAppendBytes %s %s" % (k, v),
             "add": "UAdd %s %s" % (k, v), "emplace": "UEmplace %s %s" % (k, v),
             "replace": "UReplace %s %s" % (k, v), "remove": "URemove %s" % k,
@@ -55,6 +57,8 @@ def uop(o):
 
 def res(c):
     if c["e"] == "ok":
+        if c["op"]["op"] == "count":
+            return "RCount %d" % c["n"]
         return "RBytes %s" % lit(c["b"]) if "b" in c else "RUnit"
     return "RErr %s" % ERR.get(c["e"], "EOther")
 
@@ -82,9 +86,11 @@ def json_ok(b):
 
 def ref_step(m, o):
     """m: dict key->bytes (classes are irrelevant here). Returns (m', e, b)."""
-    k = o["k"]
+    k = o.get("k", "")
     v = bytes.fromhex(o.get("v", ""))
     t = o["op"]
+    if t == "count":
+        return m, "ok", len(m)
     cur = m.get(k)
     if t == "incr":
         if cur is None:
@@ -158,7 +164,10 @@ def linearizable(run):
             m2, e, b = ref_step(m, c["op"])
             if e != c["e"]:
                 continue
-            if e == "ok" and "b" in c and bytes.fromhex(c["b"]) != b:
+            if e == "ok" and c["op"]["op"] == "count":
+                if c.get("n") != b:
+                    continue
+            elif e == "ok" and "b" in c and bytes.fromhex(c["b"]) != b:
                 continue
             if search(pending[:i] + pending[i + 1:], m2):
                 return True
@@ -177,11 +186,11 @@ def impl_oracle(run):
     be, st = run["backend"], run["stream"]
     calls = run["calls"]
     brief = [{"t": c["t"], "inv": c["inv"], "ret": c["ret"], "op": c["op"]["op"], "k": dstr(c["op"]["k"]),
-              "v": dstr(c["op"].get("v")), "e": c["e"], "b": dstr(c.get("b")), "msg": c.get("msg")}
+              "v": dstr(c["op"].get("v")), "e": c["e"], "b": dstr(c.get("b")), "n": c.get("n"), "msg": c.get("msg")}
              for c in calls]
 
     def rep(extra):
-        d = {"backend": be, "stream": st, "threads": run["threads"],
+        d = {"backend": be, "stream": st, "schedule": run.get("name"), "threads": run["threads"],
              "init": [{"op": o["op"], "k": dstr(o["k"]), "v": dstr(o.get("v"))} for o in run.get("init") or []],
              "calls": brief if len(brief) <= 40 else brief[:20] + [{"...": len(brief) - 40}] + brief[-20:],
              "final_through_store": [{"k": dstr(f["k"]), "b": dstr(f.get("b")), "e": f.get("e")} for f in run["final"]],
@@ -204,10 +213,21 @@ def impl_oracle(run):
                             % (dstr(f["k"]), dstr(f.get("b")), dstr(d.get("b"))),
                             rep({"expected": "contents = sequential run of the successful calls"})))
                 break
+    hold = run.get("hold")
+    if hold:
+        for c in calls:
+            excluded = hold["writer"] or c["op"]["op"] not in ("get", "getbytes")
+            # (the holder still has the lock at stamp "out", taken on leaving its callback)
+            if hold["mid"] < c["inv"] < hold["out"] and excluded and not c["ret"] > hold["out"]:
+                out.append(("impl:not-blocked:%s:%s" % (run.get("name", st), be),
+                            "%s was invoked while a %s was inside its critical section and returned before it "
+                            "left: the lock did not exclude it" % (c["op"]["op"], "Mutate" if hold["writer"] else "Walk"),
+                            rep({"hold": hold, "expected": "the call blocks until the holder returns"})))
+                break
     fin = {f["k"]: f for f in truth(run)}
     if st in ("lin", "forced"):
         if not linearizable(run):
-            out.append(("impl:not-linearizable:%s:%s" % (st, be),
+            out.append(("impl:not-linearizable:%s:%s" % (run.get("name", st), be),
                         "no order of the calls that did not report BUSY, consistent with real time, reproduces the "
                         "returned results and the final contents",
                         rep({"expected": "final contents and results = some sequential order of the successful calls"})))
@@ -272,7 +292,11 @@ def acases(run):
         init = "[" + "; ".join(uop(o) for o in run.get("init") or []) + "]"
         hs = "[" + "; ".join("mkH %d %d (%s) (%s)" % (c["inv"], c["ret"], uop(c["op"]), res(c)) for c in calls) + "]"
         final = "[" + "; ".join("(%s, %s)" % (lit(f["k"]), opt(f)) for f in fin) + "]"
-        return ["CLin %s %s %s" % (init, hs, final)]
+        out = ["CLin %s %s %s" % (init, hs, final)]
+        if run.get("hold"):
+            hd = run["hold"]
+            out.append("CBlocked %s %d %d %s" % ("true" if hd["writer"] else "false", hd["mid"], hd["out"], hs))
+        return out
     if st == "counter":
         return ["CCounter %d %s" % (sum(1 for c in calls if c["op"]["k"] == f["k"] and c["e"] == "ok"), opt(f))
                 for f in fin]
@@ -309,6 +333,31 @@ def run(ck):
         ck.discharged = list(ck.obligations)
     if ck.thorough and proofs_ok:
         ck.coqchk(["Verif.Props.C06"])
+
+    # psqlKV.mutate cannot be run (no PostgreSQL here): its shape is read off the source
+    try:
+        gsrc = open(vlib.os.path.join(vlib.COQ, "theories", "Gen", "KvSql.v")).read()
+        begin = re.search(r'gen_psql_mutate_begin : string := "(.*)"\.', gsrc).group(1)
+        sel = re.search(r'gen_psql_mutate_select : string := "(.*)"\.', gsrc).group(1)
+        locks = re.search(r"gen_psql_mutate_select_locks_row : bool := (\w+)\.", gsrc).group(1) == "true"
+        ck.coverage["psql_mutate_shape"] = {"begin": begin, "select": sel, "select_locks_row": locks}
+        if begin.endswith(".Begin()") and not locks:
+            ck.violation(
+                "shape:psql-mutate:read-committed-lost-update",
+                "psqlKV.mutate begins a transaction with default options (PostgreSQL: READ COMMITTED), reads the "
+                "value with a SELECT that takes no row lock and writes back a value computed from it: two "
+                "concurrent Mutates of one key can both succeed and apply only one update",
+                {"code_shape": {"begin": begin, "select": sel, "update": "update %s set v=$1 where k=$2"},
+                 "schedule": ["T1: BEGIN; SELECT v -> 0", "T2: BEGIN; SELECT v -> 0",
+                              "T1: f(0)=1; UPDATE v=1; COMMIT -> ok", "T2: f(0)=1; UPDATE v=1; COMMIT -> ok"],
+                 "expected": "counter 2 after two successful increments", "model_result": "counter 1",
+                 "basis": "PostgreSQL documentation 13.2.1 Read Committed Isolation Level; model and schedule: "
+                          "Kv/AtomicPg.v pg_rc_lost_update (Props/C06.v C06_psql_read_committed_lost_update); "
+                          "not executed: PostgreSQL cannot run in this environment",
+                 "repair": "SELECT ... FOR UPDATE (C06_psql_for_update_serializable), or REPEATABLE READ / "
+                           "SERIALIZABLE with a retry on serialization failure"})
+    except (OSError, AttributeError) as e:
+        ck.broken.append({"what": "psql mutate shape not found in Gen/KvSql.v", "detail": str(e)})
 
     runs = []
     binp = ck.build_harness("c06")
